@@ -406,13 +406,13 @@ func VerifC15Persist() {
 }
 
 // C15 K2 at the chain limit: a prologue of L cycles of (one change, persist, reopen) builds a
-// chain of L chunks (clock 0 after every reopen, so nothing is merged), L in 5..7 (thorough 1..7);
+// chain of L chunks (clock 0 after every reopen, so nothing is merged), L in 6..7 (thorough 1..7);
 // then a script as in VerifC15Persist. With 7 chunks the next write must flatten to one chunk.
 //
-//symgo:harness prop=C15 tier=quick shards=8 tshards=16 timeout=400 ttimeout=1700 bounds=prologue_chains_of_5..7_chunks(thorough_1..7)_with_puts_and_tombstones;2_keys;scripts_of_3_steps(thorough_4)_plus_a_final_persist;real_maxChain_7;hash_digit_in_{0,1}_at_level_0 outside=as_VerifC15Persist
+//symgo:harness prop=C15 tier=quick shards=8 tshards=16 timeout=400 ttimeout=1700 bounds=prologue_chains_of_6..7_chunks(thorough_1..7)_with_puts_and_tombstones;2_keys;scripts_of_3_steps(thorough_4)_plus_a_final_persist;real_maxChain_7;hash_digit_in_{0,1}_at_level_0 outside=as_VerifC15Persist
 func VerifC15Flatten() {
 	nk, nsteps := 2, 3
-	lmin := 5
+	lmin := 6
 	if rt.Thorough() {
 		nsteps, lmin = 4, 1
 	}
@@ -423,6 +423,7 @@ func VerifC15Flatten() {
 	var c vchain
 	off := uint64(0)
 	L := lmin + rt.Pick("chunks", 8-lmin)
+	rt.Observe("prologue", L)
 	for i := 0; i < L; i++ {
 		k := i % nk
 		if i%3 == 2 && m.has[k] {
@@ -443,25 +444,21 @@ func VerifC15Flatten() {
 
 // C15 K2: the merge schedule for every clock: nmerge(no, clock) never exceeds the number of
 // chunks, is all of them from maxChain chunks on, and otherwise the number of trailing one bits
-// of the clock (capped); TrailingOnes itself against a bit-by-bit model.
+// of the clock (capped); TrailingOnes itself against its characterization (t low one bits, then a zero bit).
 //
 //symgo:harness prop=C15 tier=quick shards=2 timeout=300 bounds=0..9_chunks;every_non-negative_clock outside=negative_clocks
 func VerifC15Nmerge() {
 	clock := rt.Int("clock")
 	rt.Assume(clock >= 0)
-	no := rt.Pick("no", 10)
-	t, all := 0, true
-	for i := 0; i < 63; i++ {
-		all = rt.And(all, (clock>>i)&1 == 1)
-		t = rt.IteInt(all, i+1, t)
-	}
-	rt.Assert("chain/trailing-ones", TrailingOnes(clock) == t)
+	no := rt.Choice("no", 10)
+	// TrailingOnes(clock) = t  <=>  the t lowest bits are ones and bit t is zero
+	t := TrailingOnes(clock)
+	rt.Assert("chain/trailing-ones-range", rt.And(0 <= t, t <= 63))
+	low := (1 << uint(t&63)) - 1
+	rt.Assert("chain/trailing-ones", rt.And(clock&low == low, (clock>>uint(t&63))&1 == 0))
 	got := nmerge(no, clock)
 	rt.Reach("nmerge")
-	want := rt.IteInt(t < no, t, no)
-	if no >= 7 {
-		want = no
-	}
+	want := rt.IteInt(no >= 7, no, rt.IteInt(t < no, t, no))
 	rt.Assert("chain/nmerge", got == want)
 	rt.Assert("chain/nmerge-bounded", rt.And(got >= 0, got <= no))
 	rt.Observe("nmerge", got)
